@@ -505,6 +505,97 @@ theorem failed_offer_file_no_output (fs : FS) (a : Args) (name : Path) (dropped 
         rw [if_neg (by simp [hreal]), hk] at hr
         simp at hr
 
+/-! ### a refused offer touches nothing -/
+
+/-- **refused ⇒ untouched (file offers).**  Whenever `_handle_file` ends in `TransferRejectedError` — the
+    destination exists and `--output-file` does not allow it, the user says no, or the destination is a
+    directory (found by `_decide_destname` or only behind the prompt) — the file system is exactly what it
+    was: nothing is opened, truncated, removed or created before the refusal, for any offered name. -/
+theorem refused_file_offer_touches_nothing (fs fs' : FS) (a : Args) (name : Path)
+    (h : handleFile fs a name = (fs', .error .transferRejected)) : fs' = fs := by
+  unfold handleFile at h
+  cases hd : decideDest fs a name with
+  | mk fs1 r1 =>
+    rw [hd] at h
+    cases r1 with
+    | error e =>
+      simp only at h
+      have : fs' = fs1 := (congrArg Prod.fst h).symm
+      rw [this]; exact decideDest_error hd
+    | ok dest =>
+      simp only at h
+      cases hf : freeSpaceProbe fs1 a dest with
+      | error e =>
+        rw [hf] at h
+        simp only [freeSpaceProbe] at hf
+        split at hf
+        · simp at hf
+        · simp only [Except.error.injEq] at hf
+          subst hf
+          simp at h
+      | ok u =>
+        rw [hf] at h
+        simp only at h
+        cases ha : askPermission fs1 a dest with
+        | mk fs2 r2 =>
+          rw [ha] at h
+          cases r2 with
+          | error e =>
+            simp only at h
+            obtain ⟨h2, hacc⟩ := askPermission_error ha
+            have h1 : fs1 = fs := by
+              have := decideDest_noaccept (fs := fs) name hacc
+              rw [hd] at this; exact this
+            have : fs' = fs2 := (congrArg Prod.fst h).symm
+            rw [this, h2, h1]
+          | ok u2 =>
+            simp only at h
+            split at h <;> simp at h
+
+/-- **refused ⇒ untouched (directory offers)**, including the unknown-mode `RespondError` -/
+theorem refused_directory_offer_touches_nothing (fs fs' : FS) (a : Args) (mode name : Path) (e : Err)
+    (he : e = .transferRejected ∨ e = .respondError)
+    (h : handleDirectory fs a mode name = (fs', .error e)) : fs' = fs := by
+  unfold handleDirectory at h
+  split at h
+  · exact (congrArg Prod.fst h).symm
+  · cases hd : decideDest fs a name with
+    | mk fs1 r1 =>
+      rw [hd] at h
+      cases r1 with
+      | error e1 =>
+        simp only at h
+        have : fs' = fs1 := (congrArg Prod.fst h).symm
+        rw [this]; exact decideDest_error hd
+      | ok dest =>
+        simp only at h
+        cases hf : freeSpaceProbe fs1 a dest with
+        | error e1 =>
+          rw [hf] at h
+          simp only [freeSpaceProbe] at hf
+          split at hf
+          · simp at hf
+          · simp only [Except.error.injEq] at hf
+            subst hf
+            simp only [Prod.mk.injEq, Except.error.injEq] at h
+            rcases he with he | he <;> rw [he] at h <;> simp at h
+        | ok u =>
+          rw [hf] at h
+          simp only at h
+          cases ha : askPermission fs1 a dest with
+          | mk fs2 r2 =>
+            rw [ha] at h
+            cases r2 with
+            | error e1 =>
+              simp only at h
+              obtain ⟨h2, hacc⟩ := askPermission_error ha
+              have h1 : fs1 = fs := by
+                have := decideDest_noaccept (fs := fs) name hacc
+                rw [hd] at this; exact this
+              have : fs' = fs2 := (congrArg Prod.fst h).symm
+              rw [this, h2, h1]
+            | ok u2 => simp at h
+
 /-! ### archives -/
 
 /-- **extract_inside.**  `_extract_file`'s guard accepts a member only if
